@@ -269,6 +269,123 @@ static void do_edit (char *line)
   free (b);
 }
 
+/* ---- construction programs through the public API ----
+ * line: <type> <flags> <fields> <body>
+ *   fields: ';'-separated P=hex I=hex M=hex E=hex D=hex S=hex R=decimal  ('-' for none)
+ *   body  : sequence of values V ('-' for none)
+ *   V := y HH | b 0/1 | n/q HHHH | i/u/h H8 | x/t/d H16           (little-endian hex of the value)
+ *      | s<len>:<hex> | o<len>:<hex> | g<len>:<hex>
+ *      | a<siglen>:<sighex>[ V* ]   | A<siglen>:<sighex>[ V* ]     (A: dbus_message_iter_append_fixed_array)
+ *      | ( V* ) | { V V } | v<siglen>:<sighex> V
+ */
+static const char *bp;
+static int num (void) { int n = 0; while (*bp >= '0' && *bp <= '9') n = n * 10 + (*bp++ - '0'); return n; }
+static char *hexn (int n) { char *r = malloc (n + 1); int i; for (i = 0; i < n; i++) { r[i] = (char) (hexv (bp[0]) * 16 + hexv (bp[1])); bp += 2; } r[n] = 0; return r; }
+static int build_value (DBusMessageIter *it)
+{
+  char c = *bp++;
+  switch (c)
+    {
+    case 'y': { unsigned char v = (unsigned char) (hexv (bp[0]) * 16 + hexv (bp[1])); bp += 2; return dbus_message_iter_append_basic (it, DBUS_TYPE_BYTE, &v); }
+    case 'b': { dbus_bool_t v = *bp++ == '1'; return dbus_message_iter_append_basic (it, DBUS_TYPE_BOOLEAN, &v); }
+    case 'n': case 'q': { char *h = hexn (2); dbus_uint16_t v; int r; memcpy (&v, h, 2); free (h); r = dbus_message_iter_append_basic (it, c, &v); return r; }
+    case 'i': case 'u': case 'h': { char *h = hexn (4); dbus_uint32_t v; memcpy (&v, h, 4); free (h); return dbus_message_iter_append_basic (it, c, &v); }
+    case 'x': case 't': case 'd': { char *h = hexn (8); dbus_uint64_t v; memcpy (&v, h, 8); free (h); return dbus_message_iter_append_basic (it, c, &v); }
+    case 's': case 'o': case 'g': { int n = num (); char *v; int r; bp++; v = hexn (n); r = dbus_message_iter_append_basic (it, c, &v); free (v); return r; }
+    case 'a': case 'A':
+      { int n = num (); char *sig; DBusMessageIter sub; bp++; sig = hexn (n);
+        if (!dbus_message_iter_open_container (it, DBUS_TYPE_ARRAY, sig, &sub)) return 0;
+        bp++; /* [ */
+        if (c == 'A')
+          { /* collect fixed-size elements and append them in one go */
+            unsigned char buf[4096]; int used = 0, cnt = 0, sz = (sig[0] == 'y') ? 1 : (sig[0] == 'n' || sig[0] == 'q') ? 2 : (sig[0] == 'x' || sig[0] == 't' || sig[0] == 'd') ? 8 : 4;
+            const void *pp = buf;
+            while (*bp != ']')
+              { bp++; if (sig[0] == 'b') { dbus_bool_t v = *bp++ == '1'; memcpy (buf + used, &v, 4); } else { char *h = hexn (sz); memcpy (buf + used, h, sz); free (h); } used += sz; cnt++; }
+            if (cnt > 0 && !dbus_message_iter_append_fixed_array (&sub, sig[0], &pp, cnt)) return 0;
+          }
+        else
+          while (*bp != ']') if (!build_value (&sub)) return 0;
+        bp++;
+        free (sig);
+        return dbus_message_iter_close_container (it, &sub); }
+    case '(':
+      { DBusMessageIter sub; if (!dbus_message_iter_open_container (it, DBUS_TYPE_STRUCT, NULL, &sub)) return 0;
+        while (*bp != ')') if (!build_value (&sub)) return 0;
+        bp++; return dbus_message_iter_close_container (it, &sub); }
+    case '{':
+      { DBusMessageIter sub; if (!dbus_message_iter_open_container (it, DBUS_TYPE_DICT_ENTRY, NULL, &sub)) return 0;
+        while (*bp != '}') if (!build_value (&sub)) return 0;
+        bp++; return dbus_message_iter_close_container (it, &sub); }
+    case 'v':
+      { int n = num (); char *sig; DBusMessageIter sub; int r; bp++; sig = hexn (n);
+        if (!dbus_message_iter_open_container (it, DBUS_TYPE_VARIANT, sig, &sub)) return 0;
+        r = build_value (&sub); free (sig);
+        return r && dbus_message_iter_close_container (it, &sub); }
+    default: return 0;
+    }
+}
+static void do_build (char *line)
+{
+  int ty, fl;
+  char *f, *body, *tok;
+  DBusMessage *m, *c;
+  DBusMessageIter it;
+  char *out; int on;
+  ty = atoi (line); line = strchr (line, ' ') + 1;
+  fl = atoi (line); line = strchr (line, ' ') + 1;
+  f = line; body = strchr (line, ' '); *body++ = 0;
+  m = dbus_message_new (ty);
+  dbus_message_set_no_reply (m, fl & 1);
+  dbus_message_set_auto_start (m, !(fl & 2));
+  dbus_message_set_allow_interactive_authorization (m, (fl & 4) != 0);
+  for (tok = strtok (f, ";"); tok; tok = strtok (NULL, ";"))
+    {
+      int n; unsigned char *v;
+      if (tok[0] == '-') break;
+      if (tok[0] == 'R') { dbus_message_set_reply_serial (m, (dbus_uint32_t) strtoul (tok + 2, NULL, 10)); continue; }
+      v = unhex (tok + 2, &n);
+      switch (tok[0])
+        {
+        case 'P': dbus_message_set_path (m, (char *) v); break;
+        case 'I': dbus_message_set_interface (m, (char *) v); break;
+        case 'M': dbus_message_set_member (m, (char *) v); break;
+        case 'E': dbus_message_set_error_name (m, (char *) v); break;
+        case 'D': dbus_message_set_destination (m, (char *) v); break;
+        case 'S': dbus_message_set_sender (m, (char *) v); break;
+        }
+      free (v);
+    }
+  dbus_message_iter_init_append (m, &it);
+  bp = body;
+  if (*bp != '-')
+    while (*bp) if (!build_value (&it)) { printf ("{\"built\":0}\n"); dbus_message_unref (m); return; }
+  dbus_message_set_serial (m, 0x01020304);
+  printf ("{\"built\":1,\"bytes\":");
+  if (!dbus_message_marshal (m, &out, &on)) abort ();
+  put_hex ((unsigned char *) out, on);
+  printf (",\"m\":"); dump_message (m);
+  c = dbus_message_copy (m);
+  printf (",\"copy\":"); dump_message (c);
+  dbus_message_unref (c);
+  {
+    DBusError e = DBUS_ERROR_INIT;
+    DBusMessage *d = dbus_message_demarshal (out, on, &e);
+    printf (",\"dem\":%d", d != NULL);
+    if (d)
+      {
+        char *o2; int n2;
+        printf (",\"dm\":"); dump_message (d);
+        if (dbus_message_marshal (d, &o2, &n2)) { printf (",\"re\":"); put_hex ((unsigned char *) o2, n2); dbus_free (o2); }
+        dbus_message_unref (d);
+      }
+    dbus_error_free (&e);
+  }
+  dbus_free (out);
+  printf ("}\n");
+  dbus_message_unref (m);
+}
+
 int main (int argc, char **argv)
 {
   static char line[1 << 22];
@@ -283,6 +400,7 @@ int main (int argc, char **argv)
       else if (!strcmp (argv[1], "demarshal")) do_demarshal (line);
       else if (!strcmp (argv[1], "chunks")) do_chunks (line);
       else if (!strcmp (argv[1], "edit")) do_edit (line);
+      else if (!strcmp (argv[1], "build")) do_build (line);
       fflush (stdout);
     }
   dbus_shutdown ();
